@@ -42,9 +42,12 @@ MANIFEST = {
             "C02 side condition world_refines for the extended world. Correspondence: histories in fresh "
             "interpreters + name strings + dumped live custom classes vs the model; oracle = reference dictionary + "
             "naming rules + round-trip/validation/versioning of registered custom types (incl. other extensions on "
-            "the instance, version-dependent validation compared with a built-in type). Props/C19Src.v: the control "
+            "the instance, version-dependent validation compared with a built-in type; class tables unchanged when the "
+            "caller mutates the properties object it passed; marking-definition accepts a definition object only of "
+            "the class registered under its definition_type). Props/C19Src.v: the control "
             "flow of registration.py's _register_* (order checks / duplicate test / write, map and version key), the "
-            "shape of _validate_props and class_for_type's exclusive category dispatch, read from the source by "
+            "shape of _validate_props, class_for_type's exclusive category dispatch, _get_properties_dict's copy and "
+            "the wrappers' unconditional extension_name= registration, read from the source by "
             "tr_regflow (fail-closed), are what the model transcribes (an interpreter of the source's step lists IS "
             "the model's register_* function).",
     "design_ref": "DESIGN.md 6/C19, 7 row C19; design_notes/C19.md",
@@ -267,6 +270,8 @@ def gen_history(run, idx, max_regs=8):
             names = ["x-" + base[0] + "-ext", "x-" + base[1] + "-ext", "x-" + base[2], EXTDEF + new_uuid(rng),
                      rng.choice(BUILTIN_NAMES[k])]
         pool[k] = names
+    extpool = [pool["extension"][3], EXTDEF + new_uuid(rng)]      # extension ids shared by extension_name= and CustomExtension
+    pool["extension"].append(extpool[1])
     ops, regs = [], []
     nreg = rng.randrange(2, max_regs + 1)
     clsno = 0
@@ -289,14 +294,20 @@ def gen_history(run, idx, max_regs=8):
             if xt:
                 op["exttype"] = xt
         if kind in ("object", "observable") and ver == "2.1" and rng.random() < 0.3:   # v20 decorators have no such parameter
-            op["extname"] = rng.choice([EXTDEF + new_uuid(rng), EXTDEF + new_uuid(rng), "x-side-ext", "", "x-nodash",
-                                        EXTDEF + "1-2--3", pool["extension"][3]])
+            op["extname"] = rng.choice(extpool) if rng.random() < 0.6 else rng.choice(
+                [EXTDEF + new_uuid(rng), "x-side-ext", "", "x-nodash", EXTDEF + "1-2--3"])
+        if kind in ("marking", "extension") and rng.random() < 0.6:   # (the object / observable wrappers want a list of pairs)
+            op["props_as"] = "dict"                                    # the caller hands over its own dictionary
         ops.append(op)
         regs.append(op)
+        if rng.random() < 0.3:                                         # ... and goes on using a properties object it passed earlier
+            ops.append({"op": "mutate", "target": rng.choice(regs)["cls"],
+                        "prop": rng.choice([["later_prop", "plain"], ["Bad-Name", "plain"], ["x", "int"], ["zz_more", "listplain"]])})
         for _ in range(rng.choice([0, 1, 1, 2, 3])):
             ops.append(gen_lookup(rng, regs, pool))
     for _ in range(rng.randrange(2, 7)):
         ops.append(gen_lookup(rng, regs, pool))
+    ops.append({"op": "tables"})                                       # did any registered class table change since its registration?
     return {"k": "history", "id": idx, "ops": ops}
 
 
@@ -399,8 +410,26 @@ def uuid_ok(name, ver):
     return ok
 
 
+HARNESS_ONLY = {"mutate": "ok", "tables": "same"}     # no counterpart in the model (its classes are values): what must be observed
+
+
 def history_term(case):
-    return "show_history vt builtin_registry %s" % common.coq_list([op_term(o) for o in case["ops"]])
+    return "show_history vt builtin_registry %s" % common.coq_list([op_term(o) for o in case["ops"] if o["op"] not in HARNESS_ONLY])
+
+
+def model_observations(case, line):
+    """The model's line, with the observations the harness-only operations must give put in their places."""
+    ms = line.split("|") if line else []
+    if sum(1 for o in case["ops"] if o["op"] not in HARNESS_ONLY) == 0:
+        ms = []
+    out, i = [], 0
+    for o in case["ops"]:
+        if o["op"] in HARNESS_ONLY:
+            out.append(HARNESS_ONLY[o["op"]])
+        else:
+            out.append(ms[i] if i < len(ms) else "MISSING")
+            i += 1
+    return out
 
 
 def names_term(s):
@@ -463,6 +492,9 @@ def oracle_history(case, obs, builtin):
             if o["ver"] == "2.1" and o["kind"] in ("object", "observable") and o.get("extname"):
                 side = ("2.1", "extensions", o["extname"])
             if ob == "ok":
+                if side and side in taken and side not in unsure:
+                    viol("registration of %r (%s %s) with extension_name=%r accepted although an extension is already registered "
+                         "under that name" % (o["name"], o["ver"], o["kind"], o["extname"]), i, tag="dup-accepted")
                 if key in taken and key not in unsure:
                     viol("registration of %r as %s %s accepted although the name was taken (by %s)"
                          % (o["name"], o["ver"], o["kind"], "a built-in" if key in builtin else "an earlier registration"), i, tag="dup-accepted")
@@ -485,6 +517,13 @@ def oracle_history(case, obs, builtin):
                     unsure.add(side)                                    # may or may not have been registered before the failure
                 if key not in taken and key not in unsure and reg_expect_valid(o):
                     viol("valid registration of %r as %s %s refused: %s" % (o["name"], o["ver"], o["kind"], ob), i, tag="valid-refused")
+            continue
+        if k == "mutate":
+            continue
+        if k == "tables":
+            if ob != "same":
+                viol("the class table of registered type(s) %s changed after registration (the caller went on using the "
+                     "properties object it had passed)" % ob.split(":", 1)[-1], i, tag="table-changed")
             continue
         # lookups
         name = o["name"]
@@ -901,6 +940,24 @@ def shrink_violations(run, builtin, limit=3):
         run.coverage.setdefault("shrunk", []).append({"tag": v.tag, "from": len(r["case"]["ops"]), "to": len(small["ops"]), "runs": spent})
 
 
+def oracle_marking_pairs(case, res):
+    out = []
+    if not isinstance(res, dict) or "crash" in res or "timeout" in res:
+        return [Violation("marking-pairs case did not run: %s" % json.dumps(res)[:300], {"kind": "marking_pairs", "case": case})]
+    for ver in ("2.0", "2.1"):
+        for pair, st in sorted((res.get(ver) or {}).items()):
+            a, b = pair.split(" <- ")
+            if a == b and st != "ok":
+                out.append(Violation("%s marking-definition with definition_type=%r and an object of that marking type: %s" % (ver, a, st),
+                                     {"kind": "marking_pairs", "case": case, "observed": {ver: {pair: st}}}))
+            if a != b and not st.startswith("exc:"):
+                out.append(Violation("%s marking-definition with definition_type=%r accepts a definition OBJECT of the class registered "
+                                     "as %r: %s" % (ver, a, b, st), {"kind": "marking_pairs", "case": case, "observed": {ver: {pair: st}}}))
+    for k, st in (res.get("register") or {}).items():
+        out.append(Violation("valid marking registration refused (%s): %s" % (k, st), {"kind": "marking_pairs", "case": case}))
+    return out
+
+
 # ------------------------------------------------------------------ witnesses (variant selection on the implementation)
 
 def witness_cases():
@@ -1158,7 +1215,8 @@ def check(run):
             dis = []
             unmodelled = 0
             for (c, r), m in zip(good, mlines):
-                ms = m.split("|")
+                ms = model_observations(c, m)
+                m = "|".join(ms)
                 # UNMODELLED: the model declines (version detection inside a bundle); that position is not compared
                 unmodelled += ms.count("UNMODELLED")
                 if len(ms) != len(r) or any(a != b for a, b in zip(r, ms) if b != "UNMODELLED"):
@@ -1183,6 +1241,13 @@ def check(run):
         gtypes += len(c["regs"])
         run.violations += oracle_guarantee(c, r)
     run.coverage["guarantee_types_exercised"] = gtypes
+
+    # ---- a marking-definition takes a definition object only of the class registered under its definition_type
+    mcases = [{"k": "marking_pairs", "m1": "x-%s-mark" % gen_valid_type(run.rng), "m2": "x-%s-stmt" % gen_valid_type(run.rng)}
+              for _ in range(8 if thorough else 2)]
+    for c, r in zip(mcases, run_histories(mcases)):
+        run.count(c, nontrivial=True)
+        run.violations += oracle_marking_pairs(c, r)
 
     # ---- the class tables the decorators build (custom types inherit)
     builder_ok = model_ok and os.path.exists(os.path.join(common.COQ, "Model", "RegistryBuilder.vo"))
@@ -1249,6 +1314,11 @@ def replay(payload):
         res = run_histories([case])[0]
         print("replay guarantee case: %s" % json.dumps(res)[:1500])
         vs = oracle_guarantee(case, res)
+    elif kind == "marking_pairs":
+        case = dict(r["case"], k="marking_pairs")
+        res = run_histories([case])[0]
+        print("replay marking pairs: %s" % json.dumps(res)[:1500])
+        vs = oracle_marking_pairs(case, res)
     elif kind == "backtracking":
         case = backtrack_case()
         case["ops"][0]["name"] = r["name"]
